@@ -408,6 +408,13 @@ fn run(cmd: &str, args: &[String], seed: u64, rep: &mut Report) {
             rep.extra.insert("events".into(), json!(trace.len()));
             write_ndjson(arg(&args, "--out-trace").unwrap(), &trace);
         }
+        "unreal2-trace" => {
+            let layouts = layout::LayoutSet::load(arg(&args, "--layouts").unwrap());
+            let mut trace = Vec::new();
+            exchange2::trace_unreal2(&layouts, seed, arg_u64(&args, "--runs", 2000) as usize, arg(&args, "--dump-run").map(|x| x.parse().unwrap()), &mut trace, &mut rep);
+            rep.extra.insert("events".into(), json!(trace.len()));
+            write_ndjson(arg(&args, "--out-trace").unwrap(), &trace);
+        }
         "valve-trace" => {
             let ctx = valve::Ctx {
                 layouts: layout::LayoutSet::load(arg(&args, "--layouts").unwrap()),
